@@ -174,6 +174,35 @@ func skolemInstances(asserts []string, sks []sexprBinder) []string {
 	}
 	seen := map[string]bool{}
 	var out []string
+	// universals with as many binders as the goal has skolem constants, of the same sorts in order:
+	// one positional instance (e.g. an assumed "ascending" fact against a goal over i, j)
+	if len(sks) >= 2 {
+		for _, a := range asserts {
+			for _, c := range topConjuncts(a) {
+				bs, body, ok := splitForall(c)
+				if !ok || len(bs) != len(sks) {
+					continue
+				}
+				match := true
+				for i := range bs {
+					if bs[i].sort != sks[i].sort {
+						match = false
+					}
+				}
+				if !match {
+					continue
+				}
+				inst := body
+				for i := range bs {
+					inst = strings.ReplaceAll(inst, bs[i].name, sks[i].name)
+				}
+				if !seen[inst] && len(inst) < 20000 {
+					seen[inst] = true
+					out = append(out, inst)
+				}
+			}
+		}
+	}
 	instAt := func(t, sort string) []string {
 		var made []string
 		for _, u := range unis {
@@ -211,8 +240,25 @@ func skolemInstances(asserts []string, sks []sexprBinder) []string {
 				from = st + len(needle)
 			}
 		}
+		// witness applications (sortwitN sk) introduced by the slices.Sort model
+		for _, inst := range first {
+			for from := 0; ; {
+				j := strings.Index(inst[from:], "(sortwit")
+				if j < 0 {
+					break
+				}
+				st := from + j
+				e := sexprEnd(inst, st)
+				t := inst[st:e]
+				if strings.HasSuffix(t, " "+sk.name+")") && !shifted[t] {
+					shifted[t] = true
+					order = append(order, t)
+				}
+				from = st + 8
+			}
+		}
 		for k, t := range order {
-			if k >= 3 {
+			if k >= 5 {
 				break
 			}
 			instAt(t, sk.sort)
